@@ -310,7 +310,7 @@ def run_check(prop_id, tier, seed, jobs=None):
     else:
         import multiprocessing as mp
 
-        with mp.get_context("spawn").Pool(min(jobs, len(tasks)), maxtasksperchild=None) as pool:
+        with mp.get_context("spawn").Pool(min(jobs, len(tasks)), maxtasksperchild=1) as pool:
             results = pool.map(_worker, tasks, chunksize=1)
     return finish(mod, prop_id, tier, seed, results, time.time() - t0, specs)
 
